@@ -58,11 +58,13 @@ def mru_bytes(m):
 
 def callout_bytes(c):
     body = list(c['loc'])
-    body += fru_bytes(c['fru'])
-    if c.get('pce') is not None:
-        body += pce_bytes(c['pce'])
-    if c.get('mru') is not None:
-        body += mru_bytes(c['mru'])
+    for tag in c.get('order') or ['ID', 'PE', 'MR']:
+        if tag == 'ID':
+            body += fru_bytes(c['fru'])
+        elif tag == 'PE' and c.get('pce') is not None:
+            body += pce_bytes(c['pce'])
+        elif tag == 'MR' and c.get('mru') is not None:
+            body += mru_bytes(c['mru'])
     size = 4 + len(body)
     return [size, c['flags'], c['prio'], len(c['loc'])] + body
 
